@@ -75,6 +75,15 @@ UpdateAlg(s, common, P, cells) ==
       merged == {<<k, SortedSeq(SeqSet(Get(removed, k)) \cup UNION {SeqSet(cells[j].rows) : j \in {q \in news : cells[q].k = k}})>> : k \in keys}
   IN ToRep(s, common, {p \in merged : p[2] # <<>>})
 
+\* update(entries) where entries IS the receiver (defect F24). Pass 1 collects, over self.items(), the entries all of
+\* whose rows are assigned to (here: every entry) and deletes them from self; pass 2 inserts `entries`. The repaired code
+\* iterates a snapshot dict(entries) taken first; the pinned code read `entries` after pass 1 had emptied it.
+CellsOfSelf(P) == LET sq == SetToSeq(P) IN [j \in DOMAIN sq |-> [k |-> sq[j][1], rows |-> sq[j][2]]]
+UpdateSelfAlg(s, common, P, snapshot) ==
+  IF snapshot THEN UpdateAlg(s, common, P, CellsOfSelf(P))
+  ELSE LET afterPass1 == {p \in P : FALSE}           \* every entry matched in full: all deleted - from the input as well
+       IN UpdateAlg(s, common, afterPass1, CellsOfSelf(afterPass1))
+
 \* ---- filtered(mask) -----------------------------------------------------------------------------------
 FilteredAlg(s, common, P, mask) ==
   LET kept == KeptRows(mask)
